@@ -5,7 +5,7 @@ import vlib, models
 
 SUPPORTED = {'Bind', 'Add', 'Close', 'Wait', 'WUF', 'Pause', 'PauseAndWait', 'Resume', 'Stop', 'WaitAndStop', 'Restart', 'TunePool',
              'Purge', 'QClose', 'CancelCtx', 'AddAll', 'BatchWait', 'BatchRead', 'Result'}
-READONLY = {'Status', 'NumPending', 'NumProcessing', 'NumIdle', 'NumConc', 'Metrics', 'WStatus', 'QPending', 'Yield', 'BatchPending'}
+READONLY = {'Introspect', 'Info', 'Status', 'NumPending', 'NumProcessing', 'NumIdle', 'NumConc', 'Metrics', 'WStatus', 'QPending', 'Yield', 'BatchPending'}
 
 
 def eligible(prog):
